@@ -371,6 +371,7 @@ def _merge_group(states, fresh):
     first = states[0]
     m = State()
     m.epoch = max(s.epoch for s in states) + 1
+    m.tags = first.tags if all(s.tags == first.tags for s in states) else ()
     keys = set(first.env)
     for s in states[1:]:
         keys &= set(s.env)
@@ -387,6 +388,17 @@ def _merge_group(states, fresh):
                     m.add_lin(ge(Lin.var(t), b))
         else:
             m.env[k] = Unk(fresh("join:" + k))
+    if any(k.startswith("$") for k in keys):
+        joined = sorted(k for k in keys if isinstance(m.env[k], Num) and all(isinstance(s.env[k], Num) for s in states))
+        for i, a in enumerate(joined):
+            for b in joined[i + 1:]:
+                if not (a.startswith("$") or b.startswith("$")):
+                    continue
+                d0 = first.env[a].lin - first.env[b].lin
+                for kk in ([d0.k] if d0.is_const() else [0, 1, -1]):
+                    if all(s.entails(eq(s.env[a].lin - s.env[b].lin, kk)) for s in states):
+                        m.add_lin(eq(m.env[a].lin - m.env[b].lin, kk))
+                        break
     common = None
     for s in states:
         ks = {(l.key(), op): (l, op) for l, op in s.lin}
@@ -473,13 +485,16 @@ class Engine:
         return "%s#%d" % (hint, next(self.counter))
 
     # ------------------------------------------------------------------ running
-    def run_function(self, func, args=None, state=None, depth=0, parent=None, assumptions=None):
+    def run_function(self, func, args=None, state=None, depth=0, parent=None, assumptions=None, captured=None):
         """Analyse func.  args: dict param -> V (missing params become unknowns / defaults).
         assumptions: callable(state, env) -> list of formulas assumed at entry.
         Returns Frame with .returns / .raises."""
         st = state.copy() if state is not None else State()
         saved_env = st.env
-        st.env = {}
+        # ghost variables ("$name", maintained by client hooks) live across frames
+        st.env = {k: v for k, v in saved_env.items() if k.startswith("$")}
+        if captured:
+            st.env.update(captured)     # variables of the enclosing function visible to a closure
         args = dict(args or {})
         for p in func.params:
             if p in args:
@@ -563,6 +578,8 @@ class Engine:
 
     def s_Global(self, fr, st, s):
         return [s]
+
+    s_Nonlocal = s_Global
 
     def s_Import(self, fr, st, s):
         return [s]
@@ -751,7 +768,13 @@ class Engine:
 
     def s_FunctionDef(self, fr, st, s):
         s2 = s.copy()
-        s2.env[st.name] = Unk(("localfunc", st.name))
+        g = None
+        if fr.func is not None:
+            g = self.db.funcs.get(fr.func.qual + ".<locals>." + st.name)
+        if g is not None and g.node is st and not st.decorator_list:
+            s2.env[st.name] = Ref("localfunc", g, st.name)
+        else:
+            s2.env[st.name] = Unk(("localfunc", st.name))
         return [s2]
 
     def s_With(self, fr, st, s):
@@ -885,8 +908,27 @@ class Engine:
     def _loop(self, fr, st, s, iterable):
         """havoc + Houdini invariants over the loop-modified numeric variables"""
         modified = sorted(self._assigned_names(st.body) | (self._assigned_names([st.target]) if iterable is not None else set()))
+        ghosts = sorted(k for k in s.env if k.startswith("$"))
+        if ghosts:
+            # closures called in the body may rebind their nonlocals
+            for b in st.body:
+                for n in ast.walk(b):
+                    if isinstance(n, ast.Call) and isinstance(n.func, ast.Name):
+                        v = s.env.get(n.func.id)
+                        if isinstance(v, Ref) and v.kind == "localfunc":
+                            modified = sorted(set(modified) | (v.target.declared_nonlocal & set(s.env)))
+            modified = sorted(set(modified) | set(ghosts))
         # candidate invariants: simple bounds that hold on entry
         cands = []
+        if ghosts:
+            # relational candidates x - y == k between loop-carried numbers (needed for ghost counters)
+            nums = [nm for nm in modified if isinstance(s.env.get(nm), Num)]
+            for i, a in enumerate(nums):
+                for b in nums[i + 1:]:
+                    if not (a.startswith("$") or b.startswith("$")):
+                        continue
+                    # "the difference keeps its entry value" (an expression over symbols the loop does not change)
+                    cands.append((a, "rel", (b, s.env[a].lin - s.env[b].lin)))
         for nm in modified:
             v = s.env.get(nm)
             if isinstance(v, Unk) and self._numeric_term(v.term, s):
@@ -932,6 +974,8 @@ class Engine:
                     head.add_lin(ge(Lin.var(syms[nm]), k))
                 elif op == "<=":
                     head.add_lin(le(Lin.var(syms[nm]), k))
+                elif op == "rel" and isinstance(head.env.get(nm), Num) and isinstance(head.env.get(k[0]), Num):
+                    head.add_lin(eq(Lin.var(syms[nm]) - Lin.var(syms[k[0]]) - k[1], 0))
             head = self.hooks.on_loop_head(self, fr, st, head)
             fr.loops.append({"breaks": [], "continues": []})
             if iterable is None:
@@ -953,6 +997,12 @@ class Engine:
                 nm, op, k = c
                 for b in back:
                     v = b.env.get(nm)
+                    if op == "rel":
+                        w = b.env.get(k[0])
+                        if not (isinstance(v, Num) and isinstance(w, Num) and b.entails(eq(v.lin - w.lin - k[1], 0))):
+                            bad.append(c)
+                            break
+                        continue
                     if op == "num":
                         if not isinstance(v, Num):
                             bad.append(c)
@@ -983,7 +1033,7 @@ class Engine:
             # dropping 'num' for a variable drops its bounds as well
             for c in list(dropped):
                 if c[1] == "num":
-                    dropped |= {d for d in cands if d[0] == c[0]}
+                    dropped |= {d for d in cands if d[0] == c[0] or (d[1] == "rel" and d[2][0] == c[0])}
             cands = [c for c in cands if c not in dropped]
         raise AnalysisError("loop invariant inference did not stabilise at %s" % fr.func.loc(st))
 
@@ -1245,6 +1295,11 @@ class Engine:
             return [(s, Tup(a.items + b.items, a.kind))]
         if isinstance(op, ast.Mult) and isinstance(a, Tup) and isinstance(b, Num) and b.lin.is_const() and 0 <= b.lin.k <= 16:
             return [(s, Tup(a.items * int(b.lin.k), a.kind))]
+        if isinstance(op, ast.Add) and (isinstance(a, Tup) or isinstance(b, Tup)) and isinstance(a, (Tup, Unk)) and isinstance(b, (Tup, Unk)):
+            # concatenation with an unknown sequence: keep the operands (value-level term)
+            t = ("concat", vkey(a), vkey(b))
+            self.origin[t] = ("concat", a, b)
+            return [(s, Unk(t))]
         if isinstance(a, Tup) or isinstance(b, Tup):
             return [(s, Unk(self.fresh("seqop")))]
         if isinstance(a, Con) and isinstance(a.value, float) or isinstance(b, Con) and isinstance(b.value, float):
@@ -1754,6 +1809,8 @@ class Engine:
             return self.call_method(fr, e, base, attr, args, kwargs, s, starred_unknown)
         if isinstance(fn, Ref) and fn.kind == "func":
             return self.call_func(fr, e, fn.target, args, kwargs, s, starred_unknown)
+        if isinstance(fn, Ref) and fn.kind == "localfunc":
+            return self.call_closure(fr, e, fn.target, args, kwargs, s)
         if isinstance(fn, Ref) and fn.kind == "class":
             return self.call_class(fr, e, fn.target, args, kwargs, s)
         if isinstance(fn, Ref) and fn.kind == "ext":
@@ -1822,11 +1879,11 @@ class Engine:
                 out = []
                 for rs, rv in sub.returns:
                     rs2 = rs.copy()
-                    rs2.env = dict(s.env)
+                    rs2.env = self._caller_env(s, rs)
                     out.append((rs2, rv))
                 for rs, node, exc in sub.raises:
                     rs2 = rs.copy()
-                    rs2.env = dict(s.env)
+                    rs2.env = self._caller_env(s, rs)
                     self._raise_propagate(fr, node, exc, rs2)
                 return out
         self._mark_opaque(fr)
@@ -1838,6 +1895,46 @@ class Engine:
         if f.is_generator:
             return [(s2, Unk(("gen", f.qual, next(self.counter))))]
         return [(s2, Unk(term))]
+
+    @staticmethod
+    def _caller_env(caller_state, callee_state, names=()):
+        """environment of the caller after an inlined call: its own variables, the ghosts as the callee left
+        them, and (for closures) the enclosing-scope variables the callee could rebind or mutate"""
+        env = dict(caller_state.env)
+        for k, v in callee_state.env.items():
+            if k.startswith("$") or k in names:
+                env[k] = v
+        return env
+
+    def call_closure(self, fr, e, f, args, kwargs, s):
+        """a nested function called from the function that defines it: inlined with the enclosing variables
+        visible; nonlocal rebinding and mutation of captured containers flow back to the caller"""
+        res = self.hooks.on_call(self, fr, e, f, args, kwargs, s)
+        if res is not None:
+            return res if isinstance(res, list) else [(s, res)]
+        if f.outer is fr.func and not f.is_generator and fr.depth < self.max_depth and f.qual not in fr.stack_quals():
+            bound = self.bind_args(f, args, kwargs)
+            if bound is not None:
+                shared = {k: v for k, v in s.env.items() if k not in f.locals and not k.startswith("$")}
+                sub = self.run_function(f, bound, s, fr.depth + 1, fr, captured=shared)
+                out = []
+                for rs, rv in sub.returns:
+                    rs2 = rs.copy()
+                    rs2.env = self._caller_env(s, rs, shared)
+                    out.append((rs2, rv))
+                for rs, node, exc in sub.raises:
+                    rs2 = rs.copy()
+                    rs2.env = self._caller_env(s, rs, shared)
+                    self._raise_propagate(fr, node, exc, rs2)
+                return out
+        # unknown calling context: the closure may rebind its nonlocals and mutate what it captured
+        self._mark_opaque(fr)
+        s2 = s.copy()
+        s2.epoch += 1
+        for k in f.declared_nonlocal:
+            if k in s2.env:
+                s2.env[k] = Unk(self.fresh("nonlocal:" + k))
+        return [(s2, Unk(("callres", f.qual, tuple(vkey(a) for a in args), s.epoch)))]
 
     def bind_args(self, f, args, kwargs, skip_self=False):
         pos = list(f.posparams)
@@ -1871,7 +1968,7 @@ class Engine:
                 out = []
                 for rs, _ in sub.returns:
                     rs2 = rs.copy()
-                    rs2.env = dict(s.env)
+                    rs2.env = self._caller_env(s, rs)
                     out.append((rs2, o))
                 for rs, node, exc in sub.raises:
                     self._raise_propagate(fr, node, exc, rs)
